@@ -215,6 +215,7 @@ def explicit_calls(doc, rng, big):
         ("Styles", "get_styles", lambda: doc.styles.get_styles()),
         ("Content", "get_styles", lambda: doc.content.get_styles()),
     ]
+    out += tracked_calls(body)
     for ti, t in enumerate(body.get_tables()[:4]):
         if big:
             out += [("Table", "size", lambda t=t: t.size), ("Table", "name", lambda t=t: t.name)]
@@ -297,6 +298,45 @@ def explicit_calls(doc, rng, big):
     return out
 
 
+def tracked_owners(body):
+    """The tracked-changes family: the regions, their change elements and the marks in the text."""
+    out = []
+    try:
+        tc = body.get_tracked_changes()
+    except Exception:
+        tc = None
+    if tc is None:
+        return out
+    out.append(("TrackedChanges", tc))
+    for reg in tc.get_changed_regions()[:3]:
+        out.append(("TextChangedRegion", reg))
+        ce = reg.get_change_element()
+        if ce is not None:
+            out.append((type(ce).__name__, ce))
+    for getter in ("get_text_changes", "get_text_change_starts", "get_text_change_ends", "get_text_change_deletions"):
+        try:
+            els = getattr(body, getter)()
+        except Exception:
+            els = []
+        for el in els[:2]:
+            out.append((type(el).__name__, el))
+    return out
+
+
+def tracked_calls(body):
+    out = []
+    for oname, obj in tracked_owners(body):
+        for meth in ("get_deleted", "get_inserted"):
+            if not hasattr(obj, meth):
+                continue
+            for kw in ({"no_header": True}, {"as_text": True}, {"as_text": True, "no_header": True}):
+                label = f"{meth}({','.join(sorted(kw))})"
+                out.append((oname, label, lambda o=obj, m=meth, kw=kw: getattr(o, m)(**kw)))
+            if meth == "get_inserted":
+                out.append((oname, "get_inserted(clean=False)", lambda o=obj: o.get_inserted(clean=False)))
+    return out
+
+
 def introspected_calls(doc, rng, big):
     out = []
     owners = [("Document", doc), ("Meta", doc.meta), ("Manifest", doc.manifest), ("Body", doc.body), ("Styles", doc.styles), ("Content", doc.content)]
@@ -319,6 +359,7 @@ def introspected_calls(doc, rng, big):
             els = []
         if els:
             owners.append((type(els[0]).__name__, els[0]))
+    owners += tracked_owners(body)
     for oname, obj in owners:
         for kind, name in entry_points(obj):
             if big and oname in ("Body", "Document", "Content") and name in ("get_formatted_text", "get_tables", "tables", "text_recursive", "inner_text"):
@@ -344,7 +385,7 @@ def run_document(src, ctx, res, rng):
         for t in doc.body.get_tables()[:4]:
             f, _ = table_flags(t)
             flags |= f
-    for name, getter in (("notes", "get_notes"), ("toc", "get_tocs"), ("frames", "get_frames"), ("lists", "get_lists")):
+    for name, getter in (("notes", "get_notes"), ("toc", "get_tocs"), ("frames", "get_frames"), ("lists", "get_lists"), ("tracked", "get_tracked_changes")):
         try:
             if getattr(doc.body, getter)():
                 flags.add(name)
@@ -375,6 +416,7 @@ def gen_sources(ctx):
         spec = DL.gen_doc_spec(rng, kind="text" if i % 2 else "spreadsheet")
         if spec["type"] == "text":
             spec["table"] = True
+            spec["tracked"] = i % 4 == 1
         srcs.append({"kind": "generated", "spec": spec})
     return srcs
 
